@@ -24,8 +24,9 @@ ScheduleOK(log, n) ==
 
 EventOK(e) ==
   CASE e.ev = "run" -> ScheduleOK(e.log, e.chunks) /\ e.out_mt = e.out_serial /\ e.ok_mt /\ e.ok_serial
-    [] e.ev = "e2e" -> e.pub_mt = e.pub_serial /\ e.shares_mt = e.shares_serial /\ e.vshares_mt = e.vshares_serial
-                       /\ e.outs_mt = e.outs_serial /\ e.result_mt = e.result_serial /\ e.ok
+    [] e.ev = "e2e" -> /\ e.ok        \* both variants ran to completion (an honest report over Field128 is accepted)
+                       /\ e.pub_mt = e.pub_serial /\ e.shares_mt = e.shares_serial /\ e.vshares_mt = e.vshares_serial
+                       /\ e.outs_mt = e.outs_serial /\ e.result_mt = e.result_serial
     [] OTHER -> FALSE
 VARIABLE l
 Init == l = 1
